@@ -794,6 +794,9 @@ impl<Aux> Vm<'_, Aux> {
     /// As such running non-compiler emitted programs is very un-safe
     pub fn run(&mut self, program: &CaoCompiledProgram) -> ExecutionResult<()> {
         self.runtime_data.current_program = program as *const _;
+        // frames left behind by an earlier run (every run leaves at least its entry frame) do not
+        // belong to this one
+        self.runtime_data.call_stack.clear();
         self.runtime_data
             .call_stack
             .push(CallFrame {
